@@ -1,6 +1,7 @@
 package c02
 
 import (
+	"time"
 	"fmt"
 	"sort"
 	"strings"
@@ -153,7 +154,8 @@ func runEcal(c *core.Ctx, stream string, idx int, s *script, noise, noiseSeed ui
 				dump := sched.Dump()
 				gs := dump[gid].State
 				lastView = fmt.Sprintf("live=%v last=%v pushed=%d signalled=%d tracelen=%d wc=%d evalstate=%s", view.LiveWorkers, view.LastPoint, view.Pushed, view.Signalled, view.TraceLen, pool.WorkerCount(), gs)
-				if view.Pushed > 0 && sched.BlockedIn(dump, gid, sched.WaitGroupStates, "sync.(*WaitGroup).Wait", "AddEventAndWait") && tr.Now() == seq0 {
+				if view.Pushed > 0 && sched.BlockedIn(dump, gid, waitStates, "AddEventAndWait") && strings.HasSuffix(sched.InnermostNonRuntime(dump, gid), ".AddEventAndWait") &&
+					!sched.CanStep(dump, sched.GoID()) && tr.Now() == seq0 {
 					select {
 					case er = <-done:
 						finished = true
@@ -162,9 +164,14 @@ func runEcal(c *core.Ctx, stream string, idx int, s *script, noise, noiseSeed ui
 					}
 					c.Violation("stuck:ecal-addeventandwait", "ECAL addEventAndWait does not return: all workers parked in Cond.Wait, no AddTask in flight", stream, idx, detail())
 					pool.WaitAll()
-					er = <-done
-					finished = true
-					continue
+					select {
+					case er = <-done:
+						finished = true
+						continue
+					case <-time.After(2 * time.Second):
+						// the notification is lost for good: the evaluating goroutine is left behind
+						return
+					}
 				}
 			}
 		}
